@@ -189,8 +189,8 @@ def p_vcs(ctx=None):
 
         class DPLoop(LoopSpec):
             def run(self, I, s, f):
-                row0 = f.locals["row"]
-                same = z3.And(ip.to_z3(f.locals["hyp_lens"].elem(N0)) == HL0, ip.to_z3(f.locals["ref_lens"].elem(N0)) == RL0)
+                row0 = ip.local(f, "row")
+                same = z3.And(ip.to_z3(ip.local(f, "hyp_lens").elem(N0)) == HL0, ip.to_z3(ip.local(f, "ref_lens").elem(N0)) == RL0)
                 I.ex.oblige("dp.lengths_are_spec_lengths", same)
                 I.ex.assume(same)
                 # row initialisation, by induction over r
@@ -211,7 +211,7 @@ def p_vcs(ctx=None):
                 I.ex.assume(z3.ForAll([r], pos(r)))
                 for x in (pos(RM0), pos(DARG(z3.IntVal(0))), min_lb(z3.IntVal(0), z3.IntVal(0)), min_att(z3.IntVal(0)), SPEC_AT(N0, RM0, z3.IntVal(0))):
                     I.ex.instance(x)
-                masks0 = f.locals["masks"]
+                masks0 = ip.local(f, "masks")
                 I.ex.oblige("mask.init.one_mask", z3.BoolVal(isinstance(masks0, list) and len(masks0) == 1))
                 I.ex.oblige("mask.init", z3.Implies(z3.And(0 <= RM0, RM0 < R), mask_ok(masks0[0].elem(RM0, N0), z3.IntVal(0), RM0)))
                 # havoc: row (possibly +inf beyond the reference length from the second iteration on) and the list of masks
@@ -221,7 +221,7 @@ def p_vcs(ctx=None):
                 if I.ex.choose(2) == 0:
                     k = I.ex.fresh("int", "iter")
                     I.ex.assume(z3.And(0 <= k, k < LAST))
-                    rowk = f.locals["row"]
+                    rowk = ip.local(f, "row")
                     I.ex.assume(z3.ForAll([r], row_at(rowk, r, mn(k, CAP))))
                     for rr in (R0, R0 - 1, z3.IntVal(0)):
                         I.ex.instance(row_at(rowk, rr, mn(k, CAP)))
@@ -232,7 +232,7 @@ def p_vcs(ctx=None):
                     I.assign(s.target, k + 1, f)
                     n_min = len(I.ex.ghost.get("mins", []))
                     I.exec_block(s.body, f)
-                    row1 = f.locals["row"]
+                    row1 = ip.local(f, "row")
                     jn = mn(k + 1, CAP)
                     g_b = at(row1, z3.IntVal(0), jn)
                     g_i = z3.Implies(z3.And(1 <= R0, R0 <= RL0, at(row1, R0 - 1, jn)), at(row1, R0, jn))
@@ -267,7 +267,7 @@ def p_vcs(ctx=None):
                                 I.ex.instance(x)
                         I.ex.oblige("mask.step", g_m)
                     raise PathAbort()
-                I.ex.assume(z3.ForAll([r], row_at(f.locals["row"], r, mn(LAST, CAP))))
+                I.ex.assume(z3.ForAll([r], row_at(ip.local(f, "row"), r, mn(LAST, CAP))))
                 jj, rr = z3.Ints("j_l r_l")
                 I.ex.assume(z3.ForAll([jj, rr], list_at(LAST, jj, rr)))
                 I.ex.instance(list_at(LAST, J0, RM0))
